@@ -50,6 +50,9 @@ CHECKS = {
  "C12": dict(level="exploration", design="4/C12, 5",
    text="Partial: the 'all byte strings' quantifier cannot be enumerated by a TLA+ model. Covered: Wire.tla's catalogue of malformations of valid encodings (8 frame-level and 24 schema-level kinds, every cut position of the inner encoding and of the framed stream, every byte position overwritten with 2 (thorough 6) values) is enumerated by TLC; each is written to a fresh libp2p mocknet stream served by the real handleNewStream in a child process, followed by a control stream; TLC judges: no crash, later streams served, an error is a receive error with the stream reset, every proper truncation fails, a delivery carries only self-certified blocks and 16-byte request ids.",
    note="only this catalogue, not arbitrary byte strings (fuzzing territory, outside this technique family; stated in DESIGN.md section 5)", technique="TLC enumeration of a malformation catalogue + replay against the real stream handler + TLC oracle"),
+ "C21": dict(level="model_checking", design="4/C21",
+   text="TaskQueue.tla (peer comparator, per-peer limit, freeze on removal, thaw rounds, one-slot work signal, never-ending arrivals) checked by TLC: worker and per-peer limits as invariants, EventuallyRuns (a pending task is eventually started or removed) under weak fairness; TLC also produces the starvation lassos of the code's two named deviations. Every TLC-enumerated environment script (5 events, 1 worker; 4 events, 2 workers with per-peer limit 1) is replayed on the real WorkerTaskQueue with a gating executor; the two starvation classes are replayed as adaptive lassos (a peer keeps its queue fed for 8 ticker periods); an end-to-end run on real GraphSync nodes checks MaxInProgressIncomingRequests, ...PerPeer and MaxInProgressOutgoingRequests; TaskQueueOracle.tla judges all runs.",
+   note=TB + "; go-peertaskqueue v0.8.3 modelled from its source; the unbounded 'eventually' is decided in the model, on real code a task must start within 8 ticker periods of continuous competing load", technique="TLC exhaustive (safety+liveness) + replay of TLC-enumerated scripts and counterexample-class lassos on the real queue + TLC oracle"),
 }
 NA_REASON = "not built yet in this round (check under construction; see DESIGN.md section 4 for the plan)"
 def main():
